@@ -42,7 +42,7 @@ Theorem C16_window_is_last_cap_records :
 Proof. exact (@a_window_size). Qed.
 
 (* The next index survives a restart without going back by more than the flush interval of 100 records: for every
-   fault-free history, ResetWithIndex included (it persists the index it sets since db81664; before that fix the
+   fault-free history, ResetWithIndex included (it persists the index it sets since 3a92c2a; before that fix the
    statement was refuted by [OReset 1000000] — kept below as an Example that now behaves). *)
 Theorem C16_restart_index_lag :
   forall (A : Type) cap (ops : list (bop A)) cap',
@@ -61,7 +61,7 @@ Proof. vm_compute. reflexivity. Qed.
 (* ------------------------------------------------------------------------------------------ *)
 (* Full synchronisation: a follower with an empty cache that applies the messages the leader sends for its region
    set holds, for every region sent, the leader's range, peers, leader and flow statistics — however many regions
-   and batches.  (Refuted before 7335a72 for 101 regions: `leaders` was not truncated; the former witness is the
+   and batches.  (Refuted before 4d83d3b for 101 regions: `leaders` was not truncated; the former witness is the
    Example C16_sync_nonvacuous below.) *)
 Theorem C16_follower_equals_leader_for_sent :
   forall cap kv regions,
